@@ -421,7 +421,7 @@ class RefRun:
             else:
                 on = st["on"]
             if right_names is None:
-                right_names = predict_right_names(t, r, st)
+                right_names = predict_right_names(t, r, st, self.env)
             return ref.v_join(t, r, on, st["how"], right_names, h, m)
         if v == "union":
             return ref.v_union(t, self.env[st["right"]], bool(st.get("distinct")), h, m)
@@ -432,7 +432,18 @@ class RefRun:
         raise ref.RefUnsupported(v)
 
 
-def predict_right_names(left: ref.RTable, right: ref.RTable, st):
+def _walk(e):
+    if isinstance(e, dict):
+        if "k" in e:
+            yield e
+        for v in e.values():
+            yield from _walk(v)
+    elif isinstance(e, list):
+        for v in e:
+            yield from _walk(v)
+
+
+def predict_right_names(left: ref.RTable, right: ref.RTable, st, handles=None):
     """REF's own prediction of the right names (documented rule, lowest free numeric suffix)."""
     ln = left.names()
     rn = right.names()
@@ -446,11 +457,23 @@ def predict_right_names(left: ref.RTable, right: ref.RTable, st):
     if not coll:
         return list(rn)
     base = "_" + right.name if right.name else "_right"
-    on_same = "on_names" in st
+    # names of the right columns that occur in the join condition
+    rids = {i: n for n, i in right.vis}
+    right_on = set()
+    if "on_names" in st:
+        right_on = set(st["on_names"])
+    else:
+        for nd in _walk(st.get("on", [])):
+            if nd.get("k") == "col" and nd["t"] in (handles or {}):
+                cid = handles[nd["t"]].name_to_id().get(nd["n"])
+                if cid in rids:
+                    right_on.add(rids[cid])
+    # documented rule: if nothing except join columns clashes, only the clashing columns are renamed
+    only_clashing = not ((set(rn) - right_on) & set(ln))
+    targets = [n for n in rn if (n in coll or not only_clashing)]
     cnt = 0
     while True:
         s = base + (f"_{cnt}" if cnt else "")
-        targets = [n for n in rn if (n in coll or not on_same)]
         new = [(n + s if (n in targets) else n) for n in rn]
         if not (set(new) & set(ln)) and len(set(new)) == len(new):
             return new
